@@ -456,7 +456,7 @@ func cmdCheck(args []string) int {
 }
 
 func sortedBoolKeys(m map[string]bool) []string {
-	var out []string
+	out := []string{}
 	for k := range m {
 		out = append(out, k)
 	}
